@@ -20,7 +20,8 @@
    [snapshot_with_children], PutIntoChild is [put_into_child]: lists of such steps. *)
 From Common Require Import Bytes Blake2b.
 From Trie Require Spec.
-From C03 Require Import Model ModelY Proofs ProofsY Main MainX MainY PurePut.
+From Trie Require Model Encode.
+From C03 Require Import Model ModelY Proofs ProofsY Main MainX MainY ViewPure PureAll.
 
 (* No step of a fork history changes what is seen through any handle other than the one it
    mutates; steps that mutate no handle (Snapshot, SetVersion — raising the version included —,
@@ -116,31 +117,40 @@ Example C03_child_tries_nonvacuous :
       /\ root_of st 1 = child_root2 /\ root_of st 3 = child_root3 /\ child_root3 <> child_root2).
 Proof. exact child_hist_nonvacuous. Qed.
 
-(* ---- agreement with the pure trie (DESIGN.md: C03_pure_agrees), deletion-free histories ----
-   Full statement wanted: for every fork history satisfying frozen_parents, Entries()/Hash() of every
-   handle are those of the pure trie of properties C01/C02 after the operations of the handle's
-   lineage.  Proved below for histories of Put, Snapshot, SetVersion, WriteDirty and Hash (any
-   number, any interleaving, any tree of snapshots): Entries() of handle j is EXACTLY the ordered
-   byte-keyed map [prun hist] computes for j by replaying the Puts of j's lineage with the
-   specification's bm_put (Trie/Spec.v) — so the heap insert through copy-on-write nodes computes
-   the pure insert of C01/C02 (InsertPure.insert_spec_er: erase (heap result) = Trie.Model.insert
-   (erase tree)), and snapshots inherit the contents of their source.  Not proved: the same for
-   Delete / ClearPrefix / ClearPrefixLimit steps and for the root hash (checked by the
-   correspondence run). *)
+(* ---- agreement with the pure trie of properties C01/C02 (DESIGN.md: C03_pure_agrees) ----
+   [prun hist] replays a fork history on the PURE trie of coq/Trie: per handle a pure trie, its
+   version, and a flag "the version was never changed while the trie was non-empty"; Put / Delete /
+   ClearPrefix are Trie.Model.trie_put / trie_delete / trie_clear_prefix (the functions properties
+   C01/C02/C38 are proved about), Snapshot copies the triple.
+   For EVERY fork history of Put, Delete, ClearPrefix, Snapshot, SetVersion, WriteDirty, Hash
+   satisfying frozen_parents (the code with the C02 repairs, fd = fg = true) and every handle j:
+   Entries() seen through j is exactly Trie.Model.trie_entries of j's pure trie, and Hash() is
+   Trie.Encode.trie_root of it for j's version whenever the flag holds (after a version change on a
+   non-empty trie old nodes keep their MustBeHashed flags by design, so the root is a mixed one).
+   Proof: the heap operations compute the pure ones on the erased tree (InsertPure.insert_spec_er,
+   DeletePure.delete_spec_er / clear_prefix_spec_er / handle_deletion_spec_er), reads and encoding
+   of the heap tree are those of the erased tree (ViewPure).
+   Still excluded (hence _partial): ClearPrefixLimit steps ([xstep] histories). *)
 Theorem C03_pure_agrees_partial :
-  forall (H : list byte -> list byte) (fd : bool) (hist : list step),
-  frozen_parents hist = true -> forallb put_only hist = true ->
-  forall j b, nth_error (prun hist) j = Some b ->
-  exists h, view H true (run H true fd hist init_state) j = Some (h, b).
-Proof. exact put_pure. Qed.
+  forall (H : list byte -> list byte) (hist : list step),
+  frozen_parents hist = true ->
+  forall j t pv pu, nth_error (prun hist) j = Some (t, pv, pu) ->
+  exists h, view H true (run H true true hist init_state) j
+            = Some (h, default_entries (Trie.Model.trie_entries t))
+            /\ (pu = true -> h = Trie.Encode.trie_root H (ver_of pv) t).
+Proof. exact pure_agrees. Qed.
 Print Assumptions C03_pure_agrees_partial.
 
-(* non-vacuity: three handles with different contents; the specification maps are the entries *)
+(* non-vacuity: Put, Delete, ClearPrefix, a version upgrade on a snapshot; three handles, their pure
+   contents, and which of them still have uniform flags *)
 Example C03_pure_agrees_nonvacuous :
-  let hist := [Put 0 k12 v40; Put 0 k1234 v3; Commit 0; Snap 0; SetVer 1 true; Put 1 k12 v3; Snap 1; Put 2 [n2b 32] v40] in
-  frozen_parents hist = true /\ forallb put_only hist = true
-  /\ prun hist = [[(k12, v40); (k1234, v3)]; [(k12, v3); (k1234, v3)]; [(k12, v3); (k1234, v3); ([n2b 32], v40)]].
-Proof. vm_compute. repeat split; reflexivity. Qed.
+  let hist := [Put 0 k12 v40; Put 0 k1234 v3; Commit 0; Snap 0; SetVer 1 true; Put 1 k12 v3; Snap 1;
+               Del 2 k12; Put 2 [n2b 32] v40; Clear 1 k12] in
+  frozen_parents (firstn 9 hist) = true
+  /\ map (fun x => (default_entries (Trie.Model.trie_entries (fst (fst x))), snd x)) (prun (firstn 9 hist))
+     = [([(k12, v40); (k1234, v3)], true); ([(k12, v3); (k1234, v3)], false);
+        ([(k1234, v3); ([n2b 32], v40)], false)].
+Proof. vm_compute. split; reflexivity. Qed.
 
 (* The pinned code (MustBeHashed and SetDirty applied to the shared node before
    prepForMutation) violated the property: raising a snapshot's version and re-putting an
